@@ -31,7 +31,7 @@ func c03(c *core.Ctx) {
 	for _, hd := range []h{{"pubackHandler", true, false}, {"pubcompHandler", false, false}, {"pubrecHandler", false, true}} {
 		f := p.Func("server", "(*client)."+hd.fn)
 		c.Analysed(fname(f))
-		prm := f.Params[1].Name()
+		prm := paramOf(f, 1).Name()
 		rms := invokeCalls(f, queueStoreIface, "Remove")
 		rls := ssax.Calls(f, false, ssax.ByFunc(release))
 		c.CountCallSites(len(rms) + len(rls))
@@ -75,7 +75,7 @@ func c03(c *core.Ctx) {
 			for _, st := range storesToField(f, "persistence/queue.Pubrel.PacketID") {
 				if ssax.AnyIn(ssax.BackwardOpt(st.Val, func(call *ssa.Call) bool {
 					return call.Call.StaticCallee() != nil && call.Call.StaticCallee().Name() == "NewPubrel"
-				}), func(v ssa.Value) bool { return v == ssa.Value(f.Params[1]) }) || fl.OnlyFrom(st.Val, prm+".PacketID") || fl.OnlyFrom(st.Val, "call((*pkg/packets.Pubrec).NewPubrel).PacketID") {
+				}), func(v ssa.Value) bool { return v == ssa.Value(paramOf(f, 1)) }) || fl.OnlyFrom(st.Val, prm+".PacketID") || fl.OnlyFrom(st.Val, "call((*pkg/packets.Pubrec).NewPubrel).PacketID") {
 					okRep = true
 				}
 			}
@@ -102,7 +102,7 @@ func c03(c *core.Ctx) {
 			default:
 				return false
 			}
-			return ssax.AnyIn(ssax.Backward(recv), func(w ssa.Value) bool { return w == ssa.Value(nd.Params[1]) })
+			return ssax.AnyIn(ssax.Backward(recv), func(w ssa.Value) bool { return w == ssa.Value(paramOf(nd, 1)) })
 		})
 		guarded := false
 		for _, g := range ssax.Guards(rl.Instr) {
@@ -158,7 +158,7 @@ func c03(c *core.Ctx) {
 		if k, isC := constInt(sl.Low); !isC || k != 1 {
 			return
 		}
-		if !ssax.AnyIn(ssax.Backward(sl.X), func(v ssa.Value) bool { return v == ssa.Value(pnm.Params[1]) }) {
+		if !ssax.AnyIn(ssax.Backward(sl.X), func(v ssa.Value) bool { return v == ssa.Value(paramOf(pnm, 1)) }) {
 			return
 		}
 		nCons++
@@ -177,7 +177,7 @@ func c03(c *core.Ctx) {
 	// the ids are passed to queue.Read
 	okRead := false
 	for _, rd := range invokeCalls(pnm, queueStoreIface, "Read") {
-		if ssax.Args(rd.Instr)[0] == ssa.Value(pnm.Params[1]) {
+		if ssax.Args(rd.Instr)[0] == ssa.Value(paramOf(pnm, 1)) {
 			okRead = true
 		}
 	}
@@ -374,7 +374,7 @@ func c03(c *core.Ctx) {
 				})
 			}
 			isMax := func(s map[ssa.Value]bool) bool {
-				return ssax.AnyIn(s, func(x ssa.Value) bool { return x == ssa.Value(poll.Params[1]) })
+				return ssax.AnyIn(s, func(x ssa.Value) bool { return x == ssa.Value(paramOf(poll, 1)) })
 			}
 			if (isRemain(a) && isMax(b)) || (isRemain(b) && isMax(a)) {
 				okGrant = true
@@ -464,7 +464,7 @@ func c03(c *core.Ctx) {
 	c.Check(okCfg, "C03.R5", "connectWithTimeOut|configured-window", fpos(c, cw), "window starts from the configured max_inflight", "MaxInflight is not initialised from the configured/authorised max_inflight")
 	okLim := false
 	for _, cs := range staticCalls(cw, p.Func("server", "(*client).newPacketIDLimiter")) {
-		if fl.OnlyFrom(ssax.Args(cs.Instr)[0], cw.Params[0].Name()+".opts.MaxInflight") {
+		if fl.OnlyFrom(ssax.Args(cs.Instr)[0], paramOf(cw, 0).Name()+".opts.MaxInflight") {
 			okLim = true
 		}
 	}
